@@ -676,6 +676,13 @@ pub fn gen_claims08(r: &mut Rng) -> Value {
     if r.chance(1, 6) {
         m.insert("cnf".into(), json!({"jwk": KeyId::HolderEc.jwk_json().unwrap()}));
     }
+    // deep structures now and then (thresholds on nesting depth)
+    if r.chance(1, 12) {
+        let d = r.range(20, 75);
+        if let Some(v) = gen_deep_claims_with(r, d, now(), 10).get("deep") {
+            m.insert("zz_deep".into(), v.clone());
+        }
+    }
     claims
 }
 
@@ -763,6 +770,15 @@ pub fn tree_cases(r: &mut Rng, n_dev: usize, n_combo: usize, all_kinds: bool) ->
     if r.chance(1, 3) {
         out.extend(make_case(r, &tree, &claims, "control", vec![], false, true, 2));
     }
+    // a digest of the payload re-spelled so that it no longer is the digest of any disclosure (padding, blanks, case, one
+    // character): the specification then finds no disclosure for it, whatever is presented
+    if let Some(base) = make_case(r, &tree, &claims, "control", vec![], false, true, 0) {
+        for _ in 0..2 {
+            if let Some(c) = near_digest_case(r, &base) {
+                out.push(c);
+            }
+        }
+    }
     let mut kinds: Vec<usize> = (0..KINDS).collect();
     shuffle(r, &mut kinds);
     if !all_kinds {
@@ -787,6 +803,68 @@ pub fn tree_cases(r: &mut Rng, n_dev: usize, n_combo: usize, all_kinds: bool) ->
         }
     }
     out
+}
+
+fn collect_digest_slots<'a>(v: &'a mut Value, out: &mut Vec<&'a mut Value>) {
+    match v {
+        Value::Object(m) => {
+            for (k, x) in m.iter_mut() {
+                if k == "_sd" {
+                    if let Value::Array(a) = x {
+                        for d in a.iter_mut() {
+                            if d.is_string() {
+                                out.push(d);
+                            }
+                        }
+                    }
+                } else if k == "..." && x.is_string() {
+                    out.push(x);
+                } else {
+                    collect_digest_slots(x, out);
+                }
+            }
+        }
+        Value::Array(a) => {
+            for x in a.iter_mut() {
+                collect_digest_slots(x, out);
+            }
+        }
+        _ => {}
+    }
+}
+
+/// `base` (a well-formed control with everything presented) with one digest of its payload re-spelled
+pub fn near_digest_case(r: &mut Rng, base: &Case08) -> Option<Case08> {
+    let mut c = base.clone();
+    let mut slots = vec![];
+    collect_digest_slots(&mut c.payload, &mut slots);
+    if slots.is_empty() {
+        return None;
+    }
+    let i = r.below(slots.len());
+    let d = slots[i].as_str()?.to_string();
+    let (name, nd) = match r.below(7) {
+        0 => ("padded", format!("{}=", d)),
+        1 => ("double_padded", format!("{}==", d)),
+        2 => ("trailing_blank", format!("{} ", d)),
+        3 => ("leading_blank", format!(" {}", d)),
+        4 => ("uppercased", d.to_uppercase()),
+        5 => ("last_character_changed", {
+            let mut x = d.clone();
+            let last = x.pop().unwrap_or('A');
+            x.push(if last == 'A' { 'E' } else { 'A' });
+            x
+        }),
+        _ => ("std_alphabet", d.replace('-', "+").replace('_', "/") + "="),
+    };
+    if nd == d {
+        return None;
+    }
+    *slots[i] = json!(nd);
+    c.class = format!("neardigest.{}", name);
+    c.want = Want::Draft;
+    c.own_view = None;
+    Some(c)
 }
 
 /// the first two components of a class name ("dup.other_sd_list.payload" -> "dup.other_sd_list")
